@@ -45,6 +45,8 @@ def cases(tier):
         else:
             out.append({"name": "assd_%s" % "x".join(map(str, s)), "what": "assd", "shape": s})
     out.append({"name": "embed_1d", "what": "embed", "n": 3, "N": 5 if tier == "quick" else 6})
+    # history: the value for a pair of masks does not depend on ASSD calls made before in the same process (same content, other shape)
+    out.append({"name": "sequence_same_content_other_shape", "what": "sequence", "shapes": [(4,), (2, 2)]})
     out.append({"name": "edt_large_offsets", "what": "edt"})
     return out
 
@@ -185,6 +187,35 @@ def run_case(case):
             h.witness(expect={"assd": v})
         return explore_case(h, body, base=base, concretize_div=64, time_budget=3000)
 
+    if what == "sequence":
+        shp1, shp2 = [tuple(x) for x in case["shapes"]]
+        n = len(coords(shp1))
+        X = [z3.Bool("r%d" % i) for i in range(n)]
+        Y = [z3.Bool("p%d" % i) for i in range(n)]
+        base = base + [z3.Or(X), z3.Or(Y)]
+
+        def decode(m):
+            return {"what": "sequence", "shapes": [list(shp1), list(shp2)], "ref": [bool(jsonable(v, m)) for v in X], "pred": [bool(jsonable(v, m)) for v in Y]}
+        h = H(PROP, case["name"], decode, replay_kind="sequence", max_witnesses=30)
+
+        def body():
+            try:
+                val(Metric.ASSD(SArr(list(X), "bool", shp1), SArr(list(Y), "bool", shp1)))
+                v2 = val(Metric.ASSD(SArr(list(X), "bool", shp2), SArr(list(Y), "bool", shp2)))
+            except EngineSignal:
+                raise
+            except Exception as e:
+                h.fail("completes_for_non_empty_masks", detail="%s: %s" % (type(e).__name__, str(e)[:140]))
+                return
+            want, bX, bY = oracle_assd(X, Y, shp2)
+            if want is None or isinstance(v2, float):
+                h.fail("finite_for_non_empty_masks", detail={"value": repr(v2)})
+                return
+            h.ok("value_independent_of_earlier_calls", v2 == want)
+            h.note_nontrivial(str(sorted(str(x) for x in ENG.path)[:6]))
+            h.witness(expect={"assd": v2})
+        return explore_case(h, body, base=base, concretize_div=64, const_hash=True, time_budget=3000)
+
     # ---- distance-transform glue: squared offsets must be exact for any feature-transform coordinates (no integer wrap)
     BIG = 1 << 17
     Fv = [z3.Int("ft%d" % i) for i in range(2)]
@@ -292,4 +323,17 @@ def real_edt(case, mode, expect):
     return {"match": True, "violates": bad is not None, "reason": bad, "observed": {"distance": d, "assd": v}}
 
 
-REAL = {"assd": real_assd, "embed": real_embed, "edt": real_edt}
+def real_sequence(case, mode, expect):
+    import numpy as np
+    from panoptica import Metric
+    shp1, shp2 = [tuple(x) for x in case["shapes"]]
+    ref, pred = np.array(case["ref"], dtype=bool), np.array(case["pred"], dtype=bool)
+    Metric.ASSD(ref.reshape(shp1), pred.reshape(shp1))
+    v2 = float(Metric.ASSD(ref.reshape(shp2), pred.reshape(shp2)))
+    want, _, _ = _assd_oracle(ref.reshape(shp2), pred.reshape(shp2))
+    bad = None if close(v2, want, 1e-9) else "value_independent_of_earlier_calls: after the same content was evaluated with shape %s, shape %s gives %r, definition %r" % (shp1, shp2, v2, want)
+    ok = mode != "witness" or expect is None or close(expect["assd"], v2, 1e-6)
+    return {"match": ok, "violates": bad is not None, "reason": bad, "observed": {"assd": v2}}
+
+
+REAL = {"assd": real_assd, "embed": real_embed, "edt": real_edt, "sequence": real_sequence}
